@@ -85,6 +85,43 @@ def dep_blocks(rnd, n):
     return out
 
 
+def flow_blocks(rnd, n):
+    """load -> operation(s) -> store blocks: the loaded value reaches the store through the stack *and* the pair is
+    ordered by a memory/storage dependency, the load's own key coming from the initial stack.  A fixed core of
+    shapes is always present; the rest is sampled from the enumerated family."""
+    fam = []
+    for ld, sts in (("MLOAD", ["MSTORE", "MSTORE8", "SSTORE"]), ("SLOAD", ["SSTORE", "MSTORE"])):
+        for st in sts:
+            for pre in ([], [("DUP1", None)], [("DUP2", None)]):
+                for mid in ([("ISZERO", None)], [("NOT", None)], [("ISZERO", None), ("ISZERO", None)],
+                            [("PUSH", "1"), ("ADD", None)], [("DUP1", None), ("ADD", None)], []):
+                    for post in ([], [("SWAP1", None)], [("SWAP1", None), ("SWAP1", None)], [("DUP2", None)],
+                                 [("PUSH", "0")], [("PUSH", "1"), ("SWAP1", None)]):
+                        fam.append(pre + [(ld, None)] + mid + post + [(st, None)])
+    core = [[("SLOAD", None), ("ISZERO", None), ("SSTORE", None)],
+            [("SLOAD", None), ("ISZERO", None), ("SWAP1", None), ("SWAP1", None), ("SSTORE", None)],
+            [("MLOAD", None), ("ISZERO", None), ("MSTORE", None)],
+            [("MLOAD", None), ("NOT", None), ("SWAP1", None), ("SWAP1", None), ("MSTORE", None)],
+            [("MLOAD", None), ("ISZERO", None), ("SWAP1", None), ("MSTORE", None)],
+            [("SLOAD", None), ("NOT", None), ("SWAP1", None), ("SSTORE", None)],
+            [("DUP1", None), ("SLOAD", None), ("ISZERO", None), ("SWAP1", None), ("SSTORE", None)],
+            [("DUP1", None), ("MLOAD", None), ("PUSH", "1"), ("ADD", None), ("SWAP1", None), ("MSTORE", None)]]
+    out, seen = [], set()
+    for b in core + rnd.sample(fam, min(len(fam), max(0, n - len(core)))):
+        t = tuple(b)
+        if t in seen:
+            continue
+        try:
+            need, _ = evm.stack_effect(b)
+        except KeyError:
+            continue
+        if need > 4:
+            continue
+        seen.add(t)
+        out.append(b)
+    return out[:n]
+
+
 def encode(key, S, params):
     """run the real encoder; returns (BlockOptimizer, smt2 text)"""
     from smt_encoding.block_optimizer import BlockOptimizer
@@ -284,6 +321,8 @@ def build_cases(quick, seed):
             cases.append({"block": b, "opts": o, "_group": g, "kind": "small-exhaustive-family", "process": bi < 3, "_cpu": 60})
         for b in dep_blocks(random.Random(seed + 1000 + oi), 40 if quick else 400):
             cases.append({"block": b, "opts": o, "_group": g, "kind": "load-store-blocks", "_cpu": 60})
+        for b in flow_blocks(random.Random(seed + 2000 + oi), 12 if quick else 120):
+            cases.append({"block": b, "opts": o, "_group": g, "kind": "load-flow-store-blocks", "_cpu": 60})
         for i in range(n_rand):
             b, k = gen.gen_block(rnd, "short")
             cases.append({"block": b[:6], "opts": o, "_group": g, "kind": "short-random", "_cpu": 60})
